@@ -111,6 +111,9 @@ type Interp struct {
 	steps      int64
 	depth      int
 	hashApps   []*hashApp
+	hashOut    map[int]*hashApp // digest term ID -> application (per path)
+	digestEqMemo map[[2]int]*smt.Term
+	hashLz     *hashLazy
 	opaqueSeq  int
 	objSeq     int
 	sideTab    map[*value]interface{}
@@ -282,6 +285,9 @@ func (in *Interp) resetPath() {
 	in.globals = map[*ssa.Global]*value{}
 	in.inited = map[*ssa.Package]bool{}
 	in.hashApps = nil
+	in.hashOut = nil
+	in.digestEqMemo = nil
+	in.hashLz = nil
 	in.opaqueSeq = 0
 	in.objSeq = 0
 	in.sideTab = map[*value]interface{}{}
@@ -344,6 +350,7 @@ func (in *Interp) assume(c *smt.Term) {
 	if c.IsFalse() {
 		panic(pathEnd{"infeasible", "assume false"})
 	}
+	in.expose(c)
 	in.pc = append(in.pc, c)
 	in.noteBound(c)
 	if in.cfg.Concrete != nil {
@@ -393,6 +400,7 @@ func (in *Interp) fork(alts []*smt.Term, label string) int {
 	if in.cfg.Concrete != nil {
 		panic(fmt.Sprintf("fork on symbolic condition in concrete mode: %s: %s", label, alts[0]))
 	}
+	in.expose(alts...)
 	if in.pos < len(in.decisions) {
 		d := in.decisions[in.pos]
 		if in.pos >= in.replayRegions-1 {
@@ -709,7 +717,7 @@ func (in *Interp) callSSA(caller *frame, fn *ssa.Function, args []value, env []v
 	if fn.Blocks == nil {
 		in.unsupported("external function without body: " + name)
 	}
-	if in.depth > 400 {
+	if in.depth > 2000 {
 		in.unsupported("call depth exceeded at " + name)
 	}
 	if strings.HasPrefix(pkgPath, "github.com/aergoio/aergo/v2") {
